@@ -50,6 +50,11 @@ func (ex *Exec) uintArg(v Value, what string, max int) uint {
 	if t.Hi != nil && t.Hi.IsInt64() && t.Hi.Int64() <= int64(max) {
 		return uint(ex.concretize(t, what))
 	}
+	if c, ok := t.ConstInt(); ok && c.BitLen() > 40 {
+		// a concrete shift count / size beyond any memory (typically a wrapped negative number): math/big
+		// panics when it allocates the result
+		ex.goPanic("%s by %s: makeslice: len out of range", what, c)
+	}
 	ex.unsupported("%s with unbounded symbolic count %s", what, t)
 	return 0
 }
@@ -198,9 +203,9 @@ func (ex *Exec) bigExp(x, y BigVal, mv Value) BigVal {
 			}
 			return bigConst(0)
 		}
-		if ex.modKind(m.I) == "" && x.G == nil && yc && yv.IsInt64() && yv.Int64() >= -8 && yv.Int64() <= 8 &&
+		if ex.modKind(m.I) == "" && x.G == nil && yc && yv.IsInt64() && yv.Int64() >= -4096 && yv.Int64() <= 4096 &&
 			m.I.Hi != nil && m.I.Hi.BitLen() <= 24 && m.I.Lo != nil && m.I.Lo.Sign() > 0 {
-			// small integers: exact modular arithmetic instead of the algebraic group model
+			// small integers: exact modular arithmetic (square and multiply) instead of the algebraic group model
 			base := BigVal{I: smt.Mod(x.I, m.I)}
 			n := yv.Int64()
 			if n < 0 {
@@ -211,8 +216,14 @@ func (ex *Exec) bigExp(x, y BigVal, mv Value) BigVal {
 				base, n = inv, -n
 			}
 			r := smt.Mod(smt.I64(1), m.I)
-			for i := int64(0); i < n; i++ {
-				r = smt.Mod(smt.Mul(r, base.I), m.I)
+			sq := base.I
+			for ; n > 0; n >>= 1 {
+				if n&1 == 1 {
+					r = smt.Mod(smt.Mul(r, sq), m.I)
+				}
+				if n > 1 {
+					sq = smt.Mod(smt.Mul(sq, sq), m.I)
+				}
 			}
 			return BigVal{I: r}
 		}
